@@ -525,3 +525,41 @@ def inductive(tier, seed):
            "samples": [{"obligation": results[1]["obligation"], "outcome": results[1]["outcome"]}], "wall_s": round(time.time() - t0, 1), "cached": False}
     cache_put("inductive", key, res)
     return res
+
+
+def monitor(tier, seed):
+    """Memory-level monitor (invisible to TLA+): the random histories and the tour scripts' kind of
+    operations re-executed under valgrind memcheck; invalid accesses, double frees and leaks are violations."""
+    key = key_of("monitor", repo_hash(), verif_hash(), tier, seed)
+    c = cache_get("monitor", key)
+    if c:
+        c["cached"] = True
+        return c
+    t0 = time.time()
+    binp = build_harness((), False)
+    runs = [("no-faults, leak check", ["--no-faults"], ["--leak-check=full", "--errors-for-leak-kinds=definite,indirect"], 6 if tier == "quick" else 60),
+            ("fault injection, access check", [], ["--leak-check=no"], 6 if tier == "quick" else 60)]
+    violations, parts = [], []
+    def one(i):
+        name, hargs, vargs, nruns = runs[i]
+        trace = os.path.join(_trace_dir(), "mon-%s-%d.ndjson" % (key[:8], i))
+        cmd = ["valgrind", "-q", "--error-exitcode=9"] + vargs + [binp, "drive", "--seed", str(seed * 77 + i), "--runs", str(nruns), "--steps", "45", "--out", trace] + hargs
+        rc, out, dt = sh(cmd, timeout=3000, check=False)
+        n = 0
+        if os.path.exists(trace):
+            n, _ = _count_ops(trace)
+            os.remove(trace)
+        if os.path.exists(trace + ".cur"):
+            os.remove(trace + ".cur")
+        return {"name": name, "rc": rc, "events": n, "wall_s": round(dt, 1), "tail": out[-1500:] if rc != 0 else ""}
+    with ThreadPoolExecutor(max_workers=2) as ex:
+        parts = list(ex.map(one, range(len(runs))))
+    for p in parts:
+        if p["rc"] != 0:
+            violations.append({"tags": ["C03", "C04", "C10"], "what": "valgrind memcheck reports an error (%s, rc=%d)" % (p["name"], p["rc"]),
+                               "at": 0, "event": {"valgrind": p["tail"]}, "origin": {"engine": "monitor", "seed": seed}})
+    res = {"engine": "monitor", "tier": tier, "seed": seed, "traces": len(runs), "events": sum(p["events"] for p in parts),
+           "runs": [{k: v for k, v in p.items() if k != "tail"} for p in parts], "tlc_states": 0, "tlc_transitions": 0,
+           "violations": violations, "samples": [], "wall_s": round(time.time() - t0, 1), "cached": False}
+    cache_put("monitor", key, res)
+    return res
